@@ -40,6 +40,12 @@ CHECKS["C03"] = dict(level="fault_enumeration", engine="sweep",
    note="Workers run with an 8 GiB address-space limit; a worker death is re-run alone twice before it is reported. Out-of-bounds accesses that do not crash are not visible here (C04 covers the unsafe code; ASan tier not part of quick).",
    design="3/C03")
 
+CHECKS["C05"] = dict(level="exploration", engine="sweep",
+   technique="complete product of amplification archetypes x windows x placements x drivers with a byte-exact invariant after every call, in rlimit'ed worker processes",
+   text="Archetypes built with the spec encoder (which does not cap regenerated sizes): n in {1..65000} maximum-length matches through all-RLE tables, literals sections declaring 128 KiB / 128 KiB+1 / 256 KiB / 1 MiB-1 via RLE and via 1-bit Huffman codes with the 18-bit size field, blocks regenerating exactly 128 KiB and 128 KiB+1 through sequences. Full product with windows {1 KiB, 8 KiB, 1 MiB}, placements {first, after a raw block, after two windows of output} and 9 drivers (decode_blocks All/UptoBlocks(1)/UptoBytes(1)/UptoBytes(1 MiB), StreamingDecoder reads of 1/4096/1 MiB, decode_all, decode_from_to). After every call: bytes added <= 128 KiB per block decoded, <= budget-1+128 KiB under a byte budget, held <= window + requested + 128 KiB for the streaming reader, peak heap of the call within stated constants; over-limit blocks must end in an error, exact-limit blocks must decode to the executor's plaintext.",
+   note="The byte bound is exact (ring length via the read-only hook); heap constants (3x + 4 MiB) are generous. Worker processes have a 6 GiB address-space limit and a 20 s watchdog, so an unbounded expansion is a verdict, not a crash.",
+   design="3/C05")
+
 NOT_YET = {}
 
 def main():
